@@ -317,10 +317,20 @@ impl Facts {
         frames.push(Vec::new());
     }
 
-    /// Commit (discard) the top-most undo frame
+    /// Commit the top-most undo frame. The committed changes stay undoable by
+    /// the enclosing frame (if any): its entries are handed to that frame.
     pub fn commit_undo_frame(&self) {
         let mut frames = self.undo_frames.write().unwrap();
-        frames.pop();
+        if let Some(frame) = frames.pop() {
+            if let Some(parent) = frames.last_mut() {
+                for entry in frame {
+                    // The parent keeps its own (older) record of a key
+                    if !parent.iter().any(|e| e.key == entry.key) {
+                        parent.push(entry);
+                    }
+                }
+            }
+        }
     }
 
     /// Rollback the top-most undo frame, restoring prior values
